@@ -5,12 +5,12 @@ import json
 
 from hypothesis import strategies as st
 
-from anytree import LightNodeMixin, Node, NodeMixin
+from anytree import LightNodeMixin, Node, NodeMixin, cachedsearch
 from anytree.exporter import DictExporter, DotExporter, JsonExporter, MermaidExporter, UniqueDotExporter
 
 from .. import mut
 from ..core import Violation
-from .c18 import observe, outcome
+from .c18 import observe, outcome, safe
 
 PROP_ID = "C17"
 LEVEL = "exploration"
@@ -132,6 +132,10 @@ def extra_observe(universe, labels, dict_based):
         o = {}
         stop = lambda n: labels.label(n) % 4 == 3  # noqa: E731
         filt = lambda n: labels.label(n) % 5 != 4  # noqa: E731
+        o["cachedsearch-findall"] = safe(lambda: labels.labels(cachedsearch.findall(node, filter_=filt)))
+        o["cachedsearch-findall_by_attr"] = safe(lambda: labels.labels(cachedsearch.findall_by_attr(node, "n1")))
+        o["cachedsearch-find_by_attr"] = safe(lambda: labels.label(cachedsearch.find_by_attr(node, "n0")))
+        o["cachedsearch-find"] = safe(lambda: labels.label(cachedsearch.find(node, lambda n: labels.label(n) == 2)))
         o["dot"] = list(DotExporter(node))
         o["dot-restricted"] = list(DotExporter(node, filter_=filt, stop=stop, maxlevel=3))
         o["uniquedot"] = list(UniqueDotExporter(node, filter_=filt))
